@@ -43,6 +43,14 @@ def cases(O):
              "tag`a${b + 'c'}d`; String.raw`x${y}`.trim();", "async () => { for await (const x of y) await (x + 'z'); }", "do x += 'a'; while (x.length < 3)", "a = function* (){ yield* b + 'c' }"]
     for i, code in enumerate(extra):
         cs.append({"id": "c08x-%d" % i, "config": vlib.default_config(), "calls": [{"code": code, "file": "x%d.js" % i}], "opts": opts})
+    # top-level bindings named like what the file prologue mentions: whatever the prologue declares or reads must not collide with them
+    k = 0
+    for name in ["_ddiast", "globals", "noop", "res", "undefined_", "eval_"]:
+        for form in ["const %s = globalThis.%s;", "let %s;", "class %s {}", "import %s from './m.js';", "import { %s } from './m.js';", "import * as %s from './m.js';",
+                     "function %s() {}", "var %s;", "export const %s = 1;", "export default class %s {}"]:
+            k += 1
+            code = form.replace("%s", name) + "\nfunction add(a, b) {\n  return a + b;\n}\n"
+            cs.append({"id": "c08top-%d" % k, "config": vlib.default_config(), "calls": [{"code": code, "file": "top%d.js" % k}], "opts": opts})
     # a reserved-prefix name bound in a header: refused, or else the output must still compile (no redeclaration by the injected let)
     cs += F.reserved_header_cases(opts)
     return cs
